@@ -8,7 +8,7 @@
 
 // ---------------------------------------------------------------- sanitizer defaults: classify hits by exit status
 extern "C" __attribute__((used, visibility("default"))) const char *__asan_default_options() {
-    return "exitcode=77:detect_leaks=0:abort_on_error=0:allocator_may_return_null=1:detect_stack_use_after_return=0:handle_segv=1";
+    return "exitcode=77:detect_leaks=0:abort_on_error=0:allocator_may_return_null=1:detect_stack_use_after_return=0:handle_segv=1:quarantine_size_mb=8:thread_local_quarantine_size_kb=64";
 }
 extern "C" __attribute__((used, visibility("default"))) const char *__ubsan_default_options() { return "print_stacktrace=1:halt_on_error=1:exitcode=77"; }
 
@@ -18,6 +18,9 @@ static FILE *g_real_out = nullptr;
 
 const Engine *const ALL_ENGINES[] = {
     &ENGINE_NAV,
+#ifdef SIM_DEV_ENGINES
+    SIM_DEV_ENGINES
+#endif
 #ifndef SIM_ONLY_NAV
     &ENGINE_SLOPPY, &ENGINE_TRAVERSE, &ENGINE_CAPACITY, &ENGINE_TOSTRING, &ENGINE_REUSE,
 #ifdef SIM_WITH_CPP
@@ -52,7 +55,7 @@ static std::vector<CheckSpec> make_specs() {
     add("C11", "exploration", {{"nav", 200000}}, {{"nav", 6000000}},
         "nav engine with get_raw / parser_to_writer at any position after any navigation history; span, standalone validity (real verify on a fresh parser), bytes appended to an exact-size writer, cursor afterwards; on scalars both must return false and change nothing. non-trivial = at least one container raw-extracted/skipped/left early; attributed to C11 only if the minimised history still contains raw/towriter",
         {"reference cursor correct", "sampling"});
-#ifndef SIM_ONLY_NAV
+#if !defined(SIM_ONLY_NAV) || defined(SIM_DEV_ENGINES)
     add("C01", "exploration", {{"sloppy", 250000}}, {{"sloppy", 8000000}},
         "each run: delivered bytes = valid / truncated / corrupted / random document in an exact-size heap block, parser struct and state array of exactly max_depth entries pre-filled with PRNG garbage, 1..60 calls over the whole public parser API with return values ignored (lookups only while structurally inside an object). oracle: no ASan/UBSan report, every returned span inside the delivered block, buffer unchanged. non-trivial = at least 3 calls returned true or an error class other than init rejection was reached",
         {"ASan/UBSan detect the out-of-bounds accesses (exact-size heap blocks, no slack)", "sampling"});
